@@ -265,7 +265,14 @@ func judgeTokens(input []byte, toks []lexer.Token, lexErr error) (fs []c37Findin
 		if d == "" {
 			d = "some tokens use byte columns and others rune columns"
 		}
-		fs = append(fs, c37Finding{"lex|column-mismatch", d})
+		cls := "ascii"
+		for _, c := range input {
+			if c >= 0x80 {
+				cls = "non-ascii"
+				break
+			}
+		}
+		fs = append(fs, c37Finding{"lex|column-mismatch|" + cls, d})
 	} else if !byteOK || !runeOK {
 		if class == "clean" {
 			class = "non-ascii-columns"
@@ -320,7 +327,11 @@ func judgeErrors(stage string, errs []error, n, lines int) (fs []c37Finding) {
 		if cdcerrors.IsInternalError(e) || !cdcerrors.IsUserError(e) {
 			site := "?"
 			if ue, ok := e.(cdcerrors.UnexpectedError); ok {
-				site = internalErrorSite(string(ue.Stack))
+				if strings.Contains(string(ue.Stack), "\npanic(") {
+					site = panicSite(string(ue.Stack))
+				} else {
+					site = internalErrorSite(string(ue.Stack))
+				}
 			}
 			fs = append(fs, c37Finding{stage + "|internal-error:" + fmt.Sprintf("%T", e) + "|" + site, fmt.Sprintf("%s reported a non-user error (raised in %s): %s", stage, site, trunc(e.Error(), 200))})
 			continue
@@ -351,6 +362,14 @@ func judgeErrors(stage string, errs []error, n, lines int) (fs []c37Finding) {
 
 // frontOnce runs lexer, parser and (if the parse succeeded) checker on one input.
 func frontOnce(input []byte, cfg parser.Config, doLex bool) (fs []c37Finding, class string, dontCare int) {
+	return frontOnceOpt(input, cfg, doLex, true)
+}
+
+func frontOnceOpt(in []byte, cfg parser.Config, doLex bool, doCheck bool) (fs []c37Finding, class string, dontCare int) {
+	// exact-capacity copy: a read past the end of the input must fault the same
+	// way in the enumeration and in the replay, whatever buffer the case came from
+	input := make([]byte, len(in))
+	copy(input, in)
 	n := len(input)
 	lines := bytes.Count(input, []byte{'\n'})
 	class = "lex-error"
@@ -383,6 +402,9 @@ func frontOnce(input []byte, cfg parser.Config, doLex bool) (fs []c37Finding, cl
 	if prog == nil {
 		fs = append(fs, c37Finding{"parse|nil-program-without-error", "ParseProgram returned neither a program nor an error"})
 		return sameFindingSig(fs), "nil-program", dontCare
+	}
+	if !doCheck {
+		return sameFindingSig(fs), "parsed-ok", dontCare
 	}
 	// check
 	var cerr error
@@ -685,7 +707,9 @@ func ladderWorker(sub string) {
 		fmt.Fprintf(w, "START %d\n", i)
 		w.Flush()
 		input, _ := ladderInput(c.construct, c.n)
-		fs, class, dc := frontOnce(input, fullConfig, true)
+		// the checker is quadratic in the nesting depth for several constructs:
+		// rungs above 2^12 exercise lexer and parser only (stated in the rule)
+		fs, class, dc := frontOnceOpt(input, fullConfig, true, c.n <= 1<<12)
 		r := ladderResult{Index: i, Class: class, DontCare: dc}
 		for _, f := range fs {
 			r.Sigs = append(r.Sigs, f.sig)
@@ -1097,7 +1121,7 @@ func runC37(env *mc.Env) {
 		tier := env.Tier
 		cases := ladderCases(thorough)
 		env.R.Set("ladder_cases", len(cases))
-		const per = 16
+		per := (len(cases) + 7) / 8 // 8 worker processes; a crash restarts the range after the crashing case
 		var ranges [][2]int
 		for from := 0; from < len(cases); from += per {
 			to := from + per
@@ -1259,7 +1283,7 @@ func replayC37(env *mc.Env, raw json.RawMessage) (bool, string) {
 func init() {
 	mc.Register(&mc.Check{
 		ID:   "C37",
-		Rule: "lexer.Lex + parser.ParseProgram (+ sema Checker.Check when the parse succeeds) on (a) every byte string of length <= 2 and every sequence of <= 3 tokens [<= 4 over the 62 non-keyword tokens, thorough] over the full token alphabet (every lexer token type, every keyword, literal / comment / string-template fragments), space-separated and adjacent; (b) every single edit (delete / duplicate / replace-by-each-alphabet-token at every token, truncate at every byte, insert each of {80, C0, FF, ED A0 80, NUL, \\(, /*, \"} at every byte) of every program of the edit corpus; (c) nesting ladders n = 1,2,4..2^14 [2^18] for ~95 nesting / repetition constructs, run in worker subprocesses so that an unrecoverable crash is attributed to its input; (d) all ordered pairs of 36 inputs lexed back-to-back through the pooled lexer (previous stream consumed fully / 0 / 1 / 2 tokens) vs lexed fresh, and parsed back-to-back vs parsed first. Oracle: no panic, only user errors; every token and error position inside the input; tokens contiguous from 0 to len (up to the first error token); token line = 1 + newlines before the offset and column = distance from line start in one convention (bytes or runes) per input; history-independence. non-trivial = input that reached the checker / ladder rungs with n >= 32 / pool pairs where the pooled lexer object was observably reused",
+		Rule: "lexer.Lex + parser.ParseProgram (+ sema Checker.Check when the parse succeeds) on (a) every byte string of length <= 2 and every sequence of <= 3 tokens [<= 4 over the 62 non-keyword tokens, thorough] over the full token alphabet (every lexer token type, every keyword, literal / comment / string-template fragments), space-separated and adjacent; (b) every single edit (delete / duplicate / replace-by-each-alphabet-token at every token, truncate at every byte, insert each of {80, C0, FF, ED A0 80, NUL, \\(, /*, \"} at every byte) of every program of the edit corpus; (c) nesting ladders n = 1,2,4..2^14 [2^18] for ~95 nesting / repetition constructs (checker only up to 2^12: it is quadratic in nesting depth), run in worker subprocesses so that an unrecoverable crash is attributed to its input; (d) all ordered pairs of 36 inputs lexed back-to-back through the pooled lexer (previous stream consumed fully / 0 / 1 / 2 tokens) vs lexed fresh, and parsed back-to-back vs parsed first. Oracle: no panic, only user errors; every token and error position inside the input; tokens contiguous from 0 to len (up to the first error token); token line = 1 + newlines before the offset and column = distance from line start in one convention (bytes or runes) per input; history-independence. non-trivial = input that reached the checker / ladder rungs with n >= 32 / pool pairs where the pooled lexer object was observably reused",
 		Assumptions: []string{
 			"checker run without a standard library (base activations only), access check mode 'not specified unrestricted', native/static declarations allowed",
 			"error positions are read through StartPosition/EndPosition of each reported error",
